@@ -50,17 +50,18 @@ def scales_for(keys):
     return out
 
 
-def make_model(keys):
+def make_model(keys, offset=0.0):
+    """independent normals (mild coupling) with per-coordinate scales; located at `offset` (posteriors far from the origin relative to
+    their width make one-pass variance formulas cancel catastrophically in float32)"""
     sc = {k: jnp.asarray(v) for k, v in scales_for(keys).items()}
 
     def lp(s):
         tot = -0.5 * s["z"] ** 2
         for k in keys:
-            tot = tot - 0.5 * jnp.sum((s[k] / sc[k]) ** 2)
-        # a mild coupling so that dense covariances are not trivially diagonal
+            tot = tot - 0.5 * jnp.sum(((s[k] - offset) / sc[k]) ** 2)
         ks = sorted(keys)
         if len(ks) >= 2:
-            tot = tot - 0.05 * jnp.sum(s[ks[0]] / sc[ks[0]]) * jnp.sum(s[ks[1]] / sc[ks[1]])
+            tot = tot - 0.05 * jnp.sum((s[ks[0]] - offset) / sc[ks[0]]) * jnp.sum((s[ks[1]] - offset) / sc[ks[1]])
         return tot
 
     return gs.DictInterface(lp)
@@ -83,13 +84,14 @@ def gen():
                 epochs.append([draw(st.sampled_from([1, 3])), 20, 1])
         epochs.append([4, 20, 1])
         return {"kernel": draw(st.sampled_from(["nuts", "hmc"])), "diag": draw(st.booleans()), "keys": keys, "epochs": epochs,
-                "other": draw(st.booleans()), "seed": draw(st.integers(0, 2**20)), "perm_seed": draw(st.integers(0, 23))}
+                "other": draw(st.booleans()), "seed": draw(st.integers(0, 2**20)), "perm_seed": draw(st.integers(0, 23)),
+                "offset": draw(st.sampled_from([0.0, 0.0, 30.0, -400.0, 1000.0]))}
 
     return g()
 
 
 def run(c, keys):
-    model = make_model(c["keys"])
+    model = make_model(c["keys"], float(c.get("offset", 0.0)))
     if c["kernel"] == "nuts":
         ker = gs.NUTSKernel(keys, initial_step_size=0.05, max_treedepth=5, mm_diag=c["diag"])
     else:
@@ -105,7 +107,7 @@ def run(c, keys):
     C = 2
     st0 = {"z": jnp.zeros((C,), dtype=jnp.float32)}
     for k in SHAPES:
-        st0[k] = jnp.zeros((C,) + SHAPES[k], dtype=jnp.float32) + 0.1 * (1 + jnp.arange(C, dtype=jnp.float32).reshape((C,) + (1,) * len(SHAPES[k])))
+        st0[k] = jnp.zeros((C,) + SHAPES[k], dtype=jnp.float32) + float(c.get("offset", 0.0)) + 0.1 * (1 + jnp.arange(C, dtype=jnp.float32).reshape((C,) + (1,) * len(SHAPES[k])))
     tracked = list(keys) + (["z"] if c["other"] else [])
     eng = gs.Engine(seeds=jax.random.split(jax.random.PRNGKey(c["seed"]), C), model_states=st0, kernel_sequence=KernelSequence(kernels),
                     epoch_configs=[EpochConfig(EpochType(t), d, k, None) for t, d, k in c["epochs"]], jitted_sample_duration=20,
@@ -174,7 +176,7 @@ def oracle(c):
         nt = keys != sorted(keys) or other != sorted(other)
     return {"nt": bool(nt and n_checked), "cls": [c["kernel"], "diag" if c["diag"] else "dense", f"keys{len(keys)}",
                                                    "sorted" if keys == sorted(keys) else "unsorted", "other" if c["other"] else "alone",
-                                                   f"slow{sum(1 for e in c['epochs'] if e[0] == 2)}"]}
+                                                   f"slow{sum(1 for e in c['epochs'] if e[0] == 2)}", "offset" if c.get("offset") else "centred"]}
 
 
 SUBS = [
